@@ -1508,7 +1508,60 @@ def candidate_ops(w: World, level=1):
     return list(dict.fromkeys(ops))
 
 
-def random_op(w: World, rng, p_unguarded=0.12, p_attr=0.15, p_obs=0.0):
+def stale_return_op(w: World, rng):
+    """(added for C10) an operation aimed at what a REMOVED layer still carries.  A detached layer x keeps the parent pointer
+    of the container p it was taken from.  In order of preference (each taken with probability 0.7 when available):
+    x is offered, through any inserting form, to a former ancestor that now sits BELOW x (a cycle on lists: must be refused
+    and change nothing); a former ancestor of a detached group x (p, or a group above p) is moved below x (legal on lists
+    once x lists nothing of it); x is offered again to p / to a container above p.  With nothing detached that carries a
+    pointer, a group listed in a group is taken out by one of the detaching forms (so that later steps have material).
+    None: nothing applies."""
+    cands = []
+    for x in w.detached():
+        p = w.idof(getattr(w.objs[x], "_parent", None))
+        if p is not None and p != BOGUS and p != x and w.objs[p] is not None:
+            cands.append((x, p))
+    if not cands:
+        nested = [(c, w.idof(g)) for c in w.groups() for g in w.objs[c]._layers if isinstance(g, GroupMixin)]
+        nested = [(c, g) for c, g in nested if g not in (None, BOGUS)]
+        if not nested:
+            return None
+        c, g = rng.choice(nested)
+        return rng.choice(detaching_forms(w, c, g))
+
+    def chain(p):
+        out, q, n = [p], getattr(w.objs[p], "_parent", None), 0
+        while q is not None and n < 20 and w.idof(q) not in (None, BOGUS) and w.idof(q) not in out:
+            out.append(w.idof(q))
+            q, n = getattr(q, "_parent", None), n + 1
+        return out
+
+    closing, lowering = [], []
+    for x, p in cands:
+        if not isinstance(w.objs[x], GroupMixin):
+            continue
+        below = [w.idof(l) for l in walk_layers(w.objs[x]) if isinstance(l, GroupMixin)]
+        below = [b for b in below if b not in (None, BOGUS)]
+        for a in chain(p):
+            if a in below:
+                closing.append((x, a))
+            elif isinstance(w.objs[a], Layer) and a != x:
+                lowering.append((a, rng.choice([x] + below)))
+    if closing and rng.random() < 0.7:
+        x, a = rng.choice(closing)
+        return rng.choice(inserting_forms(w, a, x))
+    if lowering and rng.random() < 0.7:
+        a, d = rng.choice(lowering)
+        return rng.choice([("move", a, d), ("move", a, d), ("grouplayers", (a,), d)])
+    x, p = rng.choice(cands)
+    return rng.choice(inserting_forms(w, rng.choice(chain(p)), x))
+
+
+def random_op(w: World, rng, p_unguarded=0.12, p_attr=0.15, p_obs=0.0, p_stale=0.0):
+    if p_stale and rng.random() < p_stale:      # (p_stale = 0: the random stream of the other properties is unchanged)
+        op = stale_return_op(w, rng)
+        if op is not None:
+            return op
     C, X = w.conts(), w.layers()
     det = w.detached()
     r = rng.random()
